@@ -20,6 +20,7 @@ def run(ctx):
         ctx.run_tlc("e1.deep", "EBB3LinkMC", "EBB3Link_c16c.cfg")
     c05.g_scripts(ctx, FOCUS, "gen_vars", "EBB3Link_c16a.cfg", 2, True, every=2 if q else 1)
     c05.g_scripts(ctx, FOCUS, "gen_motors", "EBB3Link_c16b1.cfg", 1, True)
+    c05.g_scripts(ctx, FOCUS, "gen_motor_pairs", "EBB3Link_c16b2.cfg", 2, True)      # what one request leaves behind must not mislead the next
     if not q:
         c05.g_scripts(ctx, FOCUS, "gen_motors2", "EBB3Link_c16b.cfg", 2, True, every=4)
     c05.v_histories(ctx, FOCUS, 120 if q else 4000, 25, 0.0, 16, alphabet=ALPHA, boards=BOARDS)
